@@ -234,3 +234,53 @@ theorem wrapPositional_writev_eq_pwrite {s : State} {fd : Int} {ino pos : Nat} {
         -- restoring the position gives back the original description
         simp only [State.setOfd, hTfds, hTfs, hTdirs, hTm, List.set_set]
         rw [set_self_of_getElem? _ _ _ h.ofd]
+
+/-- the zero-length case of `readv`: also equal to `pread` of 0 bytes -/
+theorem wrapPositional_readv_zero {s : State} {fd : Int} {ino pos : Nat} {acc : Acc} {flags : List OFlag}
+    {f : File} (h : IsFile s fd ino pos acc flags f) (off : Nat) (hoff : off ≤ s.maxBytes) (lens : List Nat)
+    (hl : lens.sum = 0) (hcnt : lens.length ≤ IOV_MAX) :
+    wrapPositional posixHost s fd off (fun h' => posixHost.readv h' fd lens) = s.pread fd lens.sum off := by
+  have h2 := h.setPos off hoff
+  have hc : ¬ lens.length > IOV_MAX := by omega
+  simp only [wrapPositional, posixHost]
+  rw [lseek_cur_zero h]
+  simp only
+  rw [lseek_set h off hoff]
+  simp only [if_neg hc]
+  unfold State.readv
+  rw [if_pos hl, h2.ofd?, pread_file h, hl]
+  cases hr : acc.canRead
+  · simp only [Bool.not_false, ↓reduceIte, Bool.false_eq_true]
+    rw [lseek_set h2 pos h.posOk, setOfd_setOfd, h.setOfd_self]
+  · simp only [Bool.not_true, Bool.false_eq_true, ↓reduceIte]
+    rw [lseek_set h2 pos h.posOk, setOfd_setOfd, h.setOfd_self]
+    simp [File.read]
+
+/-- `pread` never changes the host state; `pwrite` never changes the descriptor table -/
+theorem pread_state (s : State) (fd : Int) (n : Nat) (off : Int) : (s.pread fd n off).1 = s := by
+  unfold State.pread
+  split
+  · rfl
+  · split
+    · rfl
+    · split
+      · rfl
+      · split
+        · rfl
+        · split <;> rfl
+
+theorem pwrite_fds (s : State) (fd : Int) (bs : Bytes) (off : Int) : (s.pwrite fd bs off).1.fds = s.fds := by
+  unfold State.pwrite
+  split
+  · rfl
+  · split
+    · rfl
+    · split
+      · rfl
+      · split
+        · rfl
+        · split
+          · rfl
+          · split
+            · rfl
+            · split <;> rfl
